@@ -42,9 +42,9 @@ struct Victim {
     name: &'static str,
     cmd: Cmd,
     needs_fun: bool,
-    /// needs `readonly v1` first (assignment error): excludes the EXIT trap
+    /// needs `readonly v1` first (assignment error)
     readonly: bool,
-    /// contains `${x?}`: excludes the EXIT trap
+    /// contains `${x?}`
     expansion: bool,
 }
 
@@ -292,13 +292,6 @@ fn emit10(w: &mut CasesWriter, p: &Prog, text: &str, stream: &str, trap: bool, t
     w.push(&term, &json, tags, key);
 }
 
-/// Is a finding with this classifier tag registered as open for C10?
-fn finding_registered(tag: &str) -> bool {
-    std::fs::read_to_string("/verif/known_findings.json")
-        .map(|t| t.contains(&format!("\"{tag}\"")))
-        .unwrap_or(false)
-}
-
 fn trap_line() -> Line {
     Line::Cmd(l1(Cmd::TrapExit(l1(probe(TRAP_KEY, 0)))))
 }
@@ -317,14 +310,8 @@ fn main() {
             if vi.needs_fun && !infun {
                 continue;
             }
-            if cname.contains("own EXIT trap") && (vi.readonly || vi.expansion) {
-                continue;
-            }
             for errexit in [false, true] {
                 for trap in [false, true] {
-                    if trap && (vi.readonly || vi.expansion) {
-                        continue;
-                    }
                     let mut p: Prog = vec![];
                     if trap {
                         p.push(trap_line());
@@ -368,10 +355,9 @@ fn main() {
             planted.push((format!("syntax error / own line / errexit {errexit} / trap {trap}"), p, trap));
         }
     }
-    // the EXIT trap action itself contains the failing command (kinds that the
-    // specification covers inside a trap action)
+    // the EXIT trap action itself contains the failing command
     for vi in &vs {
-        if vi.readonly || vi.expansion || vi.needs_fun {
+        if vi.needs_fun {
             continue;
         }
         for errexit in [false, true] {
@@ -379,6 +365,9 @@ fn main() {
             p.push(Line::Cmd(l1(Cmd::TrapExit(seq(vec![probe(TRAP_KEY, 5), vi.cmd.clone(), probe(70, 0)])))));
             if errexit {
                 p.push(Line::Cmd(l1(call(Name::Set, &[1]))));
+            }
+            if vi.readonly {
+                p.push(Line::Cmd(l1(Cmd::Readonly(1))));
             }
             p.push(Line::Cmd(l1(Cmd::FunDef(
                 Name::User(1),
@@ -389,6 +378,18 @@ fn main() {
         }
     }
 
+    // a shell error inside the EXIT trap action: the exit status is the error
+    // status 2, not the stale `$?` (defect of yash-rs repaired by commit 52e95c4)
+    for st in [0u64, 5] {
+        planted.push((
+            format!("expansion error / minimal, inside the EXIT trap action, $?={st} / errexit false"),
+            vec![
+                Line::Cmd(l1(Cmd::TrapExit(seq(vec![probe(TRAP_KEY, st), Cmd::Assign(0, Word::Req(2)), probe(70, 0)])))),
+                Line::Cmd(l1(probe(1, 0))),
+            ],
+            true,
+        ));
+    }
     // `${x?}` of a variable that is set but empty is not an error
     planted.push((
         "succeeds / ${x?} of an empty variable / errexit false / trap false".into(),
@@ -412,6 +413,7 @@ fn main() {
                 || name.contains("syntax error")
                 || name.contains("own EXIT trap")
                 || name.contains("${x?} of an empty")
+                || name.contains("minimal, inside the EXIT trap")
         };
         let (mut must, mut rest): (Vec<usize>, Vec<usize>) = idx.iter().partition(|i| always(&planted[**i].0));
         // Fisher-Yates with the run's PRNG
@@ -436,33 +438,17 @@ fn main() {
         emit10(&mut w, p, &text, "planted", *trap, &[]);
     }
 
-    // ---- a shell error inside the EXIT trap action: only if registered as a
-    //      known finding (yash-rs leaves the stale $? as the exit status) ----
-    if finding_registered("C10_TRAP_ERROR_STATUS") {
-        for st in [0u64, 5] {
-            let p: Prog = vec![
-                Line::Cmd(l1(Cmd::TrapExit(seq(vec![probe(TRAP_KEY, st), Cmd::Assign(0, Word::Req(2)), probe(70, 0)])))),
-                Line::Cmd(l1(probe(1, 0))),
-            ];
-            let mut r = rng.fork(77);
-            let text = render(&p, &mut r, false);
-            // not in the class `wf_prog`; the Coq side is given the expected answer by the tag only
-            emit10(&mut w, &p, &text, "trap-shell-error", true, &["C10_TRAP_ERROR_STATUS"]);
-        }
-    }
-
     // ---- random programs with error material --------------------------------
     let n = args.scale(500, 20000);
     for k in 0..n {
         let mut r = rng.fork(k as u64 + 100_000);
         let size = 4 + r.below(30) as i32;
-        let strict_class = r.chance(1, 2);
+        let with_error_sources = r.chance(2, 3);
         let mut p = gen_prog(&mut r, size, false, true);
-        if strict_class {
-            // no `${x?}` / readonly: replace them
+        if !with_error_sources {
             scrub_error_sources(&mut p);
         }
-        let trap = strict_class && r.chance(2, 3);
+        let trap = r.chance(1, 2);
         let mut q: Prog = vec![];
         if trap {
             if r.chance(1, 2) {
@@ -474,7 +460,6 @@ fn main() {
                 let mut action = vec![simple(probe(TRAP_KEY, g.rng.below(3) as u64))];
                 action.extend(g.list(&cx, 1, 2));
                 let mut ap: Prog = vec![Line::Cmd(action)];
-                scrub_error_sources(&mut ap);
                 scrub_prog(&mut ap);
                 let Line::Cmd(action) = ap.pop().unwrap() else { unreachable!() };
                 q.push(Line::Cmd(l1(Cmd::TrapExit(action))));
@@ -483,7 +468,7 @@ fn main() {
         if r.chance(1, 2) {
             q.push(Line::Cmd(l1(call(Name::Set, &[1]))));
         }
-        if !strict_class && r.chance(1, 4) {
+        if with_error_sources && r.chance(1, 4) {
             q.push(Line::Cmd(l1(Cmd::Readonly(r.below(3) as u32))));
         }
         q.extend(p);
